@@ -1,6 +1,7 @@
 import Driver.Sexp
 import Pcore.Model.Dispatch
 import Pcore.Model.DispatchCtors
+import Pcore.Model.CtorNew
 /-! Driver ops for C16:  `call <lt> <ds> <args> <blk>` and `newm <recv> <args>` (syntax in harness/c16/c16.go).  The general
     `new` op is implementation-only. -/
 namespace C16
@@ -13,6 +14,11 @@ def boundInt? : Sexp → Option (Option Int)
 def boundNat? : Sexp → Option (Option Nat)
   | .atom "d" => some none
   | e => e.nat?.map some
+
+/-- a Float bound: `d` (default) or the IEEE bits of a double that is not NaN -/
+def fboundOf? (dflt : Int) : Sexp → Option Int
+  | .atom "d" => some dflt
+  | e => e.nat?.bind fun b => if b < 2 ^ 64 then F64.key b else none
 
 /-- type terms; local aliases are expanded here (LocalTypes are resolved before any dispatch is created); an unknown
     name stays an unresolved type reference, which has no instances.  `fuel` bounds alias chains (the generator never
@@ -32,6 +38,10 @@ partial def tyOf (env : List (String × Sexp)) (fuel : Nat) : Sexp → Option Ty
   | .list [.atom "arrn", e, lo, hi] => do
       let t ← tyOf env fuel e
       some (.arr t (← lo.nat?) (← boundNat? hi))
+  | .atom "num" => some .numeric
+  | .atom "flt" => some (.float (-F64.maxFiniteKey) F64.maxFiniteKey)
+  | .list [.atom "flt", lo, hi] => do
+      some (.float (← fboundOf? (-F64.maxFiniteKey) lo) (← fboundOf? F64.maxFiniteKey hi))
   | .list [.atom "opt", e] => (tyOf env fuel e).map .opt
   | .list (.atom "tuple" :: ts) => (ts.mapM (tyOf env fuel)).map .tuple
   | .list [.atom "hash", k, v, lo, hi] => do
@@ -54,6 +64,7 @@ partial def valOf : Sexp → Option Val
   | .list [.atom "i", n] => n.int?.map .int
   | .list [.atom "s", s] => s.str?.map .str
   | .list [.atom "b", b] => b.bool?.map .bool
+  | .list [.atom "f", b] => b.nat?.bind fun n => if n < 2 ^ 64 then some (.float n) else none
   | .list [.atom "u"] => some .undef
   | .list [.atom "d"] => some .default
   | .list (.atom "a" :: vs) => (vs.mapM valOf).map .arr
@@ -104,6 +115,7 @@ partial def valStr : Val → String
   | .int n => s!"(i {n})"
   | .str s => s!"(s {hexOfString s})"
   | .bool b => s!"(b {boolStr b})"
+  | .float b => s!"(f {b})"
   | .undef => "(u)"
   | .default => "(d)"
   | .arr vs => "(a" ++ String.join (vs.map fun v => " " ++ valStr v) ++ ")"
@@ -137,7 +149,7 @@ def exec : List Sexp → String
   | [.atom "newm", r, .list (.atom "args" :: args)] =>
     match recvTyOf r, args.mapM valOf with
     | some recv, some vs =>
-      match newModel recv vs with
+      match newModel (fun cs => Pcore.Syntax.parseFloat cs) recv vs with
       | none => "bad-op"          -- a receiver whose constructor is not modelled
       | some (.value v) => "value " ++ valStr v
       | some (.reported c) => "reported " ++ c
